@@ -16,7 +16,7 @@ import (
 // bias, judged only on successful parses).
 
 func c01Opts(r *mon.RNG, i int) *gram.GenOpts {
-	prof := []int{gram.ProfStateful, gram.ProfStateful, gram.ProfDefault, gram.ProfLower}[i%4]
+	prof := []int{gram.ProfStateful, gram.ProfStateful, gram.ProfDefault, gram.ProfLower, gram.ProfScanCfg}[i%5]
 	return &gram.GenOpts{Profile: prof, MaxProds: 5, Budget: 14 + r.Intn(14), Depth: 2 + r.Intn(3), TokKinds: i%3 == 0, Unions: true,
 		SharePrefix: 6, CaptureBias: 4, SubBias: 3, AllowBang: true, NamesElided: i%7 == 3}
 }
@@ -194,7 +194,7 @@ func init() {
 		},
 		Batches:    func(t string) int { return pick(t, 4, 16) },
 		Floor:      func(t string) int { return pick(t, 5000, 100000) },
-		TimeoutSec: func(t string) int { return pick(t, 900, 3600) },
+		TimeoutSec: func(t string) int { return pick(t, 300, 3600) },
 		Prepare:    gramPrepare("C01", func(t string) int { return pick(t, 90, 220) }, c01Opts, witnessExtra, false),
 		Child:      c0102Child("C01"),
 	})
@@ -206,7 +206,7 @@ func init() {
 		},
 		Batches:    func(t string) int { return pick(t, 4, 16) },
 		Floor:      func(t string) int { return pick(t, 1000, 20000) },
-		TimeoutSec: func(t string) int { return pick(t, 900, 3600) },
+		TimeoutSec: func(t string) int { return pick(t, 300, 3600) },
 		Prepare:    gramPrepare("C02", func(t string) int { return pick(t, 90, 220) }, c02Opts, witnessExtra, false),
 		Child:      c0102Child("C02"),
 	})
